@@ -57,7 +57,7 @@ CHECKS = {
              'outposts and all bitboard helpers) returns an equal value; colour-dependent constants are mirror pairs by clang-evaluated value; '
              'run-time colour choices are mirror pairs (x/flip(x), r/RANK_8-r, v/-v, msb/lsb); every table consulted with an absolute index is '
              'symmetric or covariant by value; iterations over piece lists/bit sets are order independent; both colours are registered, '
-             'dispatched first-applicable, and mutually exclusive per type; elements picked by constant index are used symmetrically. (R0) the premise of the side-by-side typing: what one colour\'s pass reads of the scorer\'s members is complete (no member slot is written after it was read, each is set before use; shared with C14.R6).',
+             'dispatched first-applicable, and mutually exclusive per type; elements picked by constant index are used symmetrically. (R0) the premise of the side-by-side typing: what one colour\'s pass reads of the scorer\'s members is complete (no member slot is written after it was read, each is set before use; shared with C14.R6). Nothing reachable from the evaluation keeps state between evaluations (C14.R0).',
         design_ref='DESIGN.md §3 C13',
         note=TB + 'A-C11: run-time geometry tables (KING_MASK, KNIGHT_MASK, LINES, FULL_LINES, slider attacks) are mirror-covariant; piece lists '
                   'are unordered sets; four listed exceptions carry a hand argument each (checked to be still needed).',
@@ -84,7 +84,7 @@ CHECKS = {
              'and reader address the same bit; (R3) normalisation flips all three squares together; (R4) the five terminal '
              'clauses as normalised atom sets; (R5) full sweeps, only UNKNOWN refined, repeat-until-stable, publish WIN bits '
              'after clearing, single writer; (R6) the evaluator normalises then looks up exactly those squares. Equality of the '
-             'computed table with the game-theoretic values needs the fix-point itself and is not decided.',
+             'computed table with the game-theoretic values needs the fix-point itself and is not decided. Which evaluator scores a position does not depend on earlier evaluations (C14.R0 over the dispatcher).',
         design_ref='DESIGN.md §3 C12',
         note=TB + 'conditions are compared as normalised atom sets over the reachable value ranges (pawn ranks 2..7).',
         technique='static: guard-atom normalisation + dominance rules over the CFG, PACK layout extraction, FILL coverage, who-may-write'),
@@ -113,7 +113,7 @@ CHECKS = {
              'from that list with the index shown inside [0, end-begin), the PV spliced behind a move is read from the frame every '
              'child search was given and the answer from the frame the root search wrote (R4), ordering only swaps list '
              'elements (R5), no non-returning construct in the search '
-             'thread (R6). Legality of the generated list itself is C01; timing is not decided.',
+             'thread (R6). Legality of the generated list itself is C01; timing is not decided. (R7) rests on C06.R0/R2/R3 (a stop is not lost and is polled); (R8) rests on C03.R3: every move the search makes on its position is taken back on every path, so the answer is formatted from the root position.',
         design_ref='DESIGN.md §3 C05',
         note=TB + 'A-ROOT: root move list non-empty (the property\'s precondition); table scores may steer the choice among legal moves.',
         technique='static: CFG path rules, sentinel dataflow, taint + dominating-guard (control dependence) rule'),
@@ -148,7 +148,7 @@ CHECKS = {
              'ply-0 node iterates only it (R3); each recursive call carries a decreasing measure behind a cut (R4); '
              'check_limits looks at the budgets after finitely many visits (every early return sits behind a decrement of a '
              'counter only it writes and a lower-bound test) and an exceeded node or time budget returns true or raises the '
-             'stop flag (R5). Wall-clock adherence is not decided.',
+             'stop flag (R5). Wall-clock adherence is not decided. (R7) the clock budget is bounded (C20.R1).',
         design_ref='DESIGN.md §3 C09',
         note=TB + 'root PV head being an element of the root list relies on C05.R3/R4.',
         technique='static: reaching-definition/interval clamp rule, loop-cycle and dominance rules, recursion measure rule'),
@@ -184,7 +184,7 @@ CHECKS = {
              'side/piece keys change together with their fields inside the only functions allowed to write them; '
              'HashKey::init and the incremental mutators use the same (component, table, index) triples and cover all '
              'kinds x colours; pawn key purity; no history/counter reads; key = XOR of the five components. '
-             'Collision freedom is probabilistic and not decided. No incremental update can precede HashKey::init (which XORs into the components).',
+             'Collision freedom is probabilistic and not decided. No incremental update can precede HashKey::init (which XORs into the components). Position::hash() returns that key and no accessor mixes anything else (a clock) into it.',
         design_ref='DESIGN.md §3 C04',
         note=TB + 'between do_null_move and undo_null_move only balanced make/unmake happens (C03.R3).',
         technique='static: typestate abstract interpretation over CFGs, sibling-agreement (COVER) and who-may-write rules'),
@@ -200,7 +200,7 @@ CHECKS = {
              'C09), definite assignment of uninitialised scalar locals, and scalar members of engine classes initialised by '
              'every constructor that engine code invokes (B12); std::vector subscripts and the history window are '
              'decided by the HEAP rules, the search thread\'s lifetime by C06.R6. An unclassifiable site in reference '
-             'code is a violation, in code the reference tree did not have it is analysis-broken (exit 2).',
+             'code is a violation, in code the reference tree did not have it is analysis-broken (exit 2). A pointer to one hash-table slot (&data_[i], also through a helper that returns it) is never moved off the slot (PTR.slot).',
         design_ref='DESIGN.md §3 C10',
         note=TB + 'assumptions named in evidence: A-PC/A-LIST, A-218, A-SM, A-EP, A-PAWN, A-WF, A-MAT, A-ENUM(decoders).',
         technique='static: interprocedural interval abstract interpretation + named structural bound rules'),
